@@ -2,7 +2,13 @@
 decorators) applied to identity on generated vectors; clauses `target` (selected entries land in the target set),
 `fixed` (entries already in the target set unchanged), `frame` (unselected entries unchanged), `idempotent`
 (t(t(x)) == t(x)), `raises` (the call must succeed).  The oracle is a direct evaluation of the documented definition
-in plain Python; index selections are normalised here (negative -> +len, out-of-range members dropped)."""
+in plain Python; index selections are normalised here (negative -> +len, out-of-range members dropped).
+Decorators that attach updater methods to the decorated function (discrete .samples/.index, integers .type/.index,
+rounded/precision .digits/.index, sorting/monotonic .index, impose_bounds .clip/.nearest) are additionally built with
+decoy settings and then brought to the configuration under test through those updaters (cfg['via']: which settings,
+in which container form - unsorted list / tuple / array, with duplicates -, optionally after a first call and after a
+first decoy update).  impose_as additionally gets masks in every shape a collapse detector can emit (pairs i<j sharing
+the first / the second member, chains, several groups, cliques, tolerance graphs; as list or as set)."""
 import math
 import random
 from .common import *       # noqa
@@ -100,7 +106,7 @@ def gen_cfg(name, rng, n, kind):
             b = {'one': one, 'open': rng.choice([[None, a], [a, None]]), 'multi': multi}[form]
         return dict(bounds=b, index=idx, clip=rng.random() < 0.6, nearest=rng.random() < 0.6)
     if name == 'discrete':
-        return dict(samples=rng.sample([-3.0, 0.0, 1.0, 2.0, 2.5, 5.0, 7.25, 11.0], rng.randint(1, 5)), index=idx)
+        return dict(samples=rng.sample(SAMPLES, rng.randint(1, 5)), index=idx)
     if name == 'integers':
         ints = rng.choice(['True', 'False', 'float', 'int'])
         if ints in ('True', 'int') and idx is not None:
@@ -147,12 +153,87 @@ def gen_cfg(name, rng, n, kind):
     raise ValueError(name)
 
 
+SAMPLES = [-3.0, 0.0, 1.0, 2.0, 2.5, 5.0, 7.25, 11.0]
+# settings a decorated function lets the caller replace afterwards: {transform: {cfg field: updater attribute}}
+UPD = {'discrete': {'samples': 'samples', 'index': 'index'}, 'integers': {'ints': 'type', 'index': 'index'},
+       'rounded': {'digits': 'digits', 'index': 'index'}, 'precision': {'digits': 'digits', 'index': 'index'},
+       'sorting': {'index': 'index'}, 'monotonic': {'index': 'index'},
+       'impose_bounds': {'clip': 'clip', 'nearest': 'nearest'}}
+INTS = {'True': True, 'False': False, 'float': float, 'int': int}
+
+
+def gen_via(name, rng, c, n):
+    """configuration c (what the oracle is told) reached through updaters: -> c with 'via' (and more varied samples)"""
+    c = dict(c)
+    if name == 'discrete':       # any order, repeated members allowed
+        c['samples'] = [rng.choice(SAMPLES) for _ in range(rng.randint(1, 6))]
+    if name == 'impose_bounds' and isinstance(c['bounds'], dict):
+        c['index'] = None
+    fields = sorted(UPD[name])
+    if name != 'discrete' and isinstance(c.get('index'), int):
+        c['index'] = [c['index']]                     # updaters are handed index collections
+    chosen = [f for f in fields if rng.random() < 0.7] or [rng.choice(fields)]
+    if name == 'discrete' and 'samples' not in chosen and rng.random() < 0.7:
+        chosen.append('samples')
+    rng.shuffle(chosen)
+    via = []
+    for f in chosen:
+        form = rng.choice(['list', 'tuple', 'array', 'list']) if f in ('samples', 'index') else 'value'
+        if f == 'index' and isinstance(c['index'], int):
+            c['index'] = [c['index']]
+        via.append([f, form, rng.random() < 0.3])      # [field, container, also install a decoy through the updater first]
+    c['via'] = via
+    c['precall'] = rng.random() < 0.4
+    return c
+
+
+def decoy(name, f, c, n):
+    if f == 'samples':
+        return [100.0, -50.0, 25.0]
+    if f == 'index':
+        return None if c['index'] is not None else [0]
+    if f == 'digits':
+        return 5 if c['digits'] != 5 else 4
+    if f == 'ints':
+        return {'True': 'float', 'int': 'False', 'False': 'int', 'float': 'True'}[c['ints']]
+    return not c[f]
+
+
+def contain(form, v):
+    if v is None or form == 'value':
+        return v
+    return np.array(v) if form == 'array' else tuple(v) if form == 'tuple' else list(v)
+
+
 NAMES = ['impose_bounds', 'bounded', 'discrete', 'integers', 'rounded', 'precision', 'impose_unique', 'unique',
          'sorting', 'monotonic', 'impose_at', 'impose_as', 'with_mean', 'with_variance', 'with_std', 'with_spread',
          'normalized', 'masked', 'partial', 'synchronized', 'clipped', 'suppressed']
 
 
-def build(name, c):
+def build(name, c, x=None):
+    """the transform in configuration c; with c['via'] it is decorated with decoys and updated to c afterwards"""
+    via = c.get('via')
+    if not via:
+        return build_plain(name, c)
+    c0 = dict(c)
+    for f, _, _ in via:
+        c0[f] = decoy(name, f, c, 0)
+    t = build_plain(name, c0)
+    if c.get('precall') and x is not None:
+        try:
+            t(x)                                        # a call in the decoy configuration, result not looked at
+        except Exception:      # noqa
+            pass
+    for f, form, twice in via:
+        upd = getattr(t, UPD[name][f])
+        val = lambda v: INTS[v] if f == 'ints' else contain(form, v)      # noqa: E731
+        if twice:
+            upd(val(decoy(name, f, c, 0)))
+        upd(val(c[f]))
+    return t
+
+
+def build_plain(name, c):
     import mystic.constraints as mc
     import mystic.tools as mt
     idx = tup(c.get('index'))
@@ -166,7 +247,7 @@ def build(name, c):
     if name == 'discrete':
         return mc.discrete(list(c['samples']), idx)(I)
     if name == 'integers':
-        return mc.integers({'True': True, 'False': False, 'float': float, 'int': int}[c['ints']], idx)(I)
+        return mc.integers(INTS[c['ints']], idx)(I)
     if name in ('rounded', 'precision'):
         return getattr(mc, name)(c['digits'], idx)(I)
     if name in ('sorting', 'monotonic'):
